@@ -65,6 +65,10 @@ type realSess struct {
 	br      *bridge
 	dropAll func()
 	stop    func()
+	// standard transport only: the server ends the session (closes the channel, as after "exit") and keeps the connection;
+	// live tells how many SSH connections the server still holds
+	endSessions func()
+	live        func() int
 }
 
 func buildReal(kind string, onClose bool) (*realSess, error) {
@@ -123,10 +127,28 @@ func buildReal(kind string, onClose bool) (*realSess, error) {
 	default:
 		rs.br = &bridge{r: cli}
 
-		srv, err := startSSHSrv(sshSrvCfg{User: "admin", Password: "pw0rd", OnSession: func(_ string, ch ssh.Channel) { rs.br.serve(ch) }})
+		var chMu sync.Mutex
+
+		var chans []ssh.Channel
+
+		srv, err := startSSHSrv(sshSrvCfg{User: "admin", Password: "pw0rd", OnSession: func(_ string, ch ssh.Channel) {
+			chMu.Lock()
+			chans = append(chans, ch)
+			chMu.Unlock()
+			rs.br.serve(ch)
+		}})
 		if err != nil {
 			return nil, err
 		}
+
+		rs.endSessions = func() {
+			chMu.Lock()
+			for _, ch := range chans {
+				_ = ch.Close()
+			}
+			chMu.Unlock()
+		}
+		rs.live = func() int { return int(atomic.LoadInt32(&srv.Live)) }
 
 		rs.dropAll = srv.DropConns
 		rs.stop = srv.Close
@@ -199,6 +221,10 @@ func c07Real(sc *c07Scn, idx int) verdict {
 	case "eof":
 		rs.dropAll()
 		time.Sleep(5 * time.Millisecond)
+	case "session-ended":
+		// the device ends the session (logout) but the connection is still there: closing the driver closes it
+		rs.endSessions()
+		time.Sleep(5 * time.Millisecond)
 	}
 
 	for i := 1; i <= sc.Closes && v.OK; i++ {
@@ -227,6 +253,19 @@ func c07Real(sc *c07Scn, idx int) verdict {
 			}
 		case <-time.After(1500 * time.Millisecond):
 			fail(&v, sigBase+":inflight-op-outlives-close", "the operation in flight during Close (own timeout 5 s) had not returned 1.5 s after Close returned")
+
+			return v
+		}
+	}
+
+	if sc.State == "session-ended" && rs.live != nil {
+		deadline := time.Now().Add(time.Second)
+		for rs.live() > 0 && time.Now().Before(deadline) {
+			time.Sleep(5 * time.Millisecond)
+		}
+
+		if n := rs.live(); n > 0 {
+			fail(&v, sigBase+":transport-not-closed", "Close returned, yet the server still holds %d SSH connection(s) of this driver 1 s later: the transport was not closed", n)
 
 			return v
 		}
